@@ -3,7 +3,7 @@
 HOOK_COMMITS = ['83a615d', '70f6a25', '2ebdcd0', '9a2449a']
 
 # properties whose checks have been run to completion on the unchanged tree (exit 0) and are claimed in MANIFEST.json
-READY = ['C01', 'C02', 'C03', 'C04', 'C05', 'C06', 'C07', 'C08', 'C09', 'C10', 'C11', 'C12', 'C16', 'C17', 'C18', 'C19', 'C20']
+READY = ['C01', 'C02', 'C03', 'C04', 'C05', 'C06', 'C07', 'C08', 'C09', 'C10', 'C11', 'C12', 'C13', 'C14', 'C15', 'C16', 'C17', 'C18', 'C19', 'C20']
 
 COMMON_NOTE = ('Trusted: Kani 0.68 MIR->goto translation and CBMC 6.11/CaDiCaL; the specification functions written in the '
                'harness files from the property statement; the stubs and assumptions listed per harness in the evidence file. '
